@@ -281,6 +281,7 @@ def _merge(results):
     violations = []
     samples = []
     notes = collections.Counter()
+    facets = collections.Counter()
     viol_keys = collections.Counter()
     oracle_errors = []
     driver_errors = []
@@ -291,6 +292,7 @@ def _merge(results):
         violations.extend(r["violations"])
         viol_keys.update(r["violation_keys"])
         notes.update(r["notes"])
+        facets.update(r.get("facet_counts", {}))
         oracle_errors.extend(r["oracle_errors"])
         if r.get("driver_error"):
             driver_errors.append(f"[{r['workload']}#{r['shard']}] {r['driver_error']}")
@@ -308,6 +310,7 @@ def _merge(results):
         "viol_keys": dict(viol_keys),
         "samples": samples,
         "notes": dict(notes),
+        "facets": dict(facets),
         "oracle_errors": oracle_errors,
         "driver_errors": driver_errors,
         "executed": sum(r["executed"] for r in results),
